@@ -367,7 +367,18 @@ def run_solver(cs, S, rho_global, rho_func=None, want_attrs=True, float_lists=Fa
         rho._f[:] = rho_global[sl]
         phi._f[:] = 1e300
         if rho_func is not None:
-            ps.solveEquationForFunction(phi, rho_func)
+            # a right-hand side whose values change between two calls while the callable stays the same object (a source with a
+            # time-dependent amplitude): the second call must solve for the values of the second call
+            class Source:
+                def __init__(self, amp):
+                    self.amp = amp
+
+                def __call__(self, r):
+                    return self.amp * rho_func(r)
+            src = Source(0.37)
+            ps.solveEquationForFunction(phi, src)
+            src.amp = 1.0
+            ps.solveEquationForFunction(phi, src)
         else:
             ps.solveEquation(phi, rho)
         out = {'starts': [int(x) for x in L.starts], 'phi': np.array(phi._f), 'rho_after': np.array(rho._f),
@@ -551,7 +562,11 @@ def one_case(chk, drv, it, stats):
             rho_func = lambda r: np.cos(kf * r) + 0.25 * r  # noqa: E731
     desc = case_desc(cs)
 
+    knots_before = [(b, np.array(b.knots, copy=True)) for b in S['bsplines'] if b is not None]
     res = run_solver(cs, S, rho_g, rho_func)
+    if any(not np.array_equal(k0, np.asarray(b.knots)) for b, k0 in knots_before):
+        chk.fail('C14:spline-space-modified', 'building / using the solver changed the knots of the spline space it was given', desc)
+        return
     if not res.ok:
         chk.fail('C14:crash', 'DiffEqSolver raised: ' + str(res.first_error())[:200], desc)
         return
